@@ -124,7 +124,7 @@ func TestC12_history(t *testing.T) {
 }
 
 func TestC13_history(t *testing.T) {
-	p := profileWith(baseProfile, func(p *e2Profile) { p.weights["deleteJob"] = 6; p.weights["k-terminate"] = 3 })
+	p := profileWith(baseProfile, func(p *e2Profile) { p.weights["deleteJob"] = 6; p.weights["k-terminate"] = 3; p.weights["orphanPod"] = 4 })
 	e2Check(t, "C13", "history", 1500, e2RuleCommon+"oracle: the entry that removes a Job sees none of its Pods; controller-issued Job deletes only after finish + TTL; deletions complete and TTLs expire at the fixpoint; non-trivial = a Job was removed or a TTL expired; distinct = distinct trace",
 		p, []string{"C13"}, func(l []string) bool { return hasAny(l, "job-removed", "ttl-expiry") })
 }
@@ -347,4 +347,63 @@ func TestC10_restarts(t *testing.T) {
 	})
 	e2Check(t, "C10", "restarts", 1000, "as history, but every Pod has restartPolicy OnFailure and containers are often restarted in place (after an error or an OOM kill) before their final exit; non-trivial = a Job became terminal after one of its containers had been restarted in place; distinct = distinct trace",
 		p, []string{"C10"}, func(l []string) bool { return hasAny(l, "container-restarted") })
+}
+
+// TestC06_queue: Enqueue JobConfigs with a limit of 1-2 and long queues; queued
+// Jobs (often the head of the queue) are deleted while the controller's Job cache
+// lags, active Jobs finish, and the queue has to keep moving.
+func TestC06_queue(t *testing.T) {
+	p := profileWith(baseProfile, func(p *e2Profile) {
+		p.enqueueHeavy = true
+		p.maxJCs, p.maxJobs, p.steps = 1, 6, 55
+		p.weights["createJob"] = 14
+		p.weights["deleteJob"] = 10
+		p.weights["kill"] = 1
+		p.weights["deletePod"] = 0
+		p.weights["k-schedule"] = 8
+		p.weights["k-run"] = 8
+		p.weights["k-finish"] = 12
+		p.weights["k-terminate"] = 6
+		p.weights["settleLag"] = 6
+		p.weights["deliver"] = 12
+		p.weights["step"] = 16
+		p.weights["settle"] = 4
+		p.weights["advance"] = 3
+	})
+	e2Check(t, "C06", "queue", 1000, "as history, but every JobConfig uses Enqueue with maxConcurrency 1-2, Jobs do not override the policy, queues are long, queued Jobs are deleted often (also while the controller's Job cache lags) and active Jobs finish; non-trivial = an Enqueue Job waited at the limit and a Job was removed; distinct = distinct trace",
+		p, []string{"C06"}, func(l []string) bool { return hasAny(l, "enqueue-waiting-at-limit") && hasAny(l, "job-removed") })
+}
+
+func TestC10_reaped(t *testing.T) {
+	e2Check(t, "C10", "reaped", 1000, "the reaped workload of C08 (tasks reaped by the pending timeout whose terminating Pod may still start and exit, also successfully, before it disappears) under the C10 oracles; non-trivial = a task was reaped by the pending timeout; distinct = distinct trace",
+		reapProfile, []string{"C10"}, func(l []string) bool { return hasAny(l, "pending-timeout-delete") })
+}
+
+// TestC12_flapped: a 20 s pending timeout always applies; Pods start running and
+// then stop reporting it for a while (container statuses gone, or phase Pending
+// again after a node reboot) while the clock passes the pending deadline: a task
+// that has begun running must not be reaped as pending.
+func TestC12_flapped(t *testing.T) {
+	p := profileWith(baseProfile, func(p *e2Profile) {
+		p.reapHeavy = true
+		p.lag = false
+		p.maxJCs, p.maxJobs, p.steps = 1, 3, 40
+		p.weights["createJob"] = 6
+		p.weights["kill"] = 0
+		p.weights["deleteJob"] = 0
+		p.weights["deletePod"] = 0
+		p.weights["k-schedule"] = 14
+		p.weights["k-run"] = 14
+		p.weights["k-finish"] = 2
+		p.weights["k-flap"] = 12
+		p.weights["k-unflap"] = 3
+		p.weights["k-terminate"] = 3
+		p.weights["k-restart"] = 0
+		p.weights["advance"] = 12
+		p.weights["settle"] = 14
+	})
+	e2Check(t, "C12", "flapped", 1000, "as history, but a 20 s pending timeout always applies and running Pods often stop reporting that they run (container statuses disappear, or the phase goes back to Pending) while the clock passes creation + timeout; non-trivial = a running Pod stopped reporting it and a pending deadline was crossed; distinct = distinct trace",
+		p, []string{"C12"}, func(l []string) bool {
+			return hasAny(l, "running-pod-reported-pending", "running-pod-lost-container-status") && hasAny(l, "deadline-crossed")
+		})
 }
